@@ -1,6 +1,8 @@
 import PlasVerif.Driver.Util
 import PlasVerif.Model.Verbatim
 import PlasVerif.Model.MathParse
+import PlasVerif.Model.NoCharsub
+import PlasVerif.Spec.DocTree
 namespace PlasVerif.Driver.C11
 open PlasVerif.Driver PlasVerif.Model.Catcodes PlasVerif.Model.Tokenizer PlasVerif.Model.Verbatim
 open PlasVerif.Model.MathSource PlasVerif.Model.MathParse PlasVerif.Spec.MathFormula
@@ -97,6 +99,17 @@ def handle : List String → String
       let relex := joinSp ((stripBlanks (tokenize defaultCats s)).map tokStr)
       s!"{model}\t{spec}\t{relex}\t{cps (render f)}\t{joinSp ((toks f).map tokStr)}"
     | _, _ => "bad-op"
+  -- mgrp <chars> : text of a brace group inside mathematics after its digest-time normalisation
+  --   model = repaired variant (no substitution in mathematics), aux = the pinned (as-is) variant (D17)
+  | ["mgrp", w] =>
+    match cps? w with
+    | some chars =>
+      let node := PlasVerif.Model.Digest.Tree.node (PlasVerif.Model.NoCharsub.groupItem (.item 2)) (.item 1)
+        (chars.map PlasVerif.Model.NoCharsub.charTok)
+      let repaired := PlasVerif.Spec.DocTree.allChars (PlasVerif.Model.NoCharsub.paragraphsInMath true node)
+      let asis := PlasVerif.Spec.DocTree.allChars (PlasVerif.Model.Digest.paragraphs false node)
+      s!"{cps repaired}\t{cps chars}\t{cps asis}"
+    | none => "bad-op"
   | _ => "bad-op"
 
 end PlasVerif.Driver.C11
